@@ -124,7 +124,12 @@ def run_one(cfg, choices):
                 S.yield_('cb%d.slow' % idx)
             S.point('cb%d.exit' % idx)
             if cfg['raising'] and idx == 0:
-                raise RuntimeError('callback failed')
+                raise Nasty('callback failed')
+
+    class Nasty(Exception):
+        # "callbacks that raise": any exception object, also one that cannot even be printed
+        def __str__(self):
+            raise TypeError('this exception has no string form')
     for i in range(cfg['ncb']):
         lst.add_callback(Consumer(i).consume)
 
